@@ -98,6 +98,11 @@ fn option_sets() -> Vec<StyleSheetOptions> {
         host_is: Some("h".into()),
     });
     v.push(StyleSheetOptions { class_prefix: Some("".into()), class_prefix_sign: None, rpx_ratio: 0.1, import_sign: None, convert_host: true, host_is: None });
+    // every numeric option value is a configuration: zero, negative zero, negative, huge, tiny, non-finite ratios
+    for r in [0.0f32, -0.0, -750., 1., 3., f32::MAX, f32::MIN_POSITIVE, f32::INFINITY, f32::NEG_INFINITY, f32::NAN] {
+        v.push(StyleSheetOptions { class_prefix: None, class_prefix_sign: None, rpx_ratio: r, import_sign: None, convert_host: false, host_is: None });
+    }
+    v.push(StyleSheetOptions { class_prefix: Some("a b{}".into()), class_prefix_sign: Some("*/ x".into()), rpx_ratio: 750., import_sign: Some("*/".into()), convert_host: true, host_is: Some("\"]{".into()) });
     v
 }
 
@@ -206,7 +211,12 @@ pub fn inputs(tier: &str, seed: u64) -> Vec<(String, String)> {
               "{{ [.5] }}", "<wxs module=\"m\">", "</wxs", "<wxs module='m'></wxsx</wxs>", "<v wx:for>", "&#xffffffffff;&#99999999999;&bogus;&;&#;&#x;",
               "{{ '\\u{41}\\x4\\u12' }}", "{{ a ? b }}", "{{ a[ }}", "{{ f( }}", "{{ {a:} }}", "{{ ...a }}", "<template is data=\"{{ }}\"/>", "<a:b:c d:e:f=g/>",
               "<!-- \n\u{1f600} --><v a=\"{{ a b }}\"/>", "<wxs module=\"m\" src=\"a.wxs\">\n// \u{1f600}</wxs>", "{{ a /* \n\u{1f600}\u{1f600} */ b c }}",
-              "<v \u{1f600}\n\u{1f600} a=1 a=2>", "<!-- x\n汉\u{1f600} --></v>", "<wxs module=\"m\">\n\u{1f600}</wxs><include/>"] {
+              "<v \u{1f600}\n\u{1f600} a=1 a=2>", "<!-- x\n汉\u{1f600} --></v>", "<wxs module=\"m\">\n\u{1f600}</wxs><include/>",
+              // slot values declared on every kind of element and used in that element's own attributes and children
+              "<c><slot slot:item item=\"{{item}}\"/></c>", "<slot slot:a name=\"{{a}}\"/>", "<c><block slot:a wx:if=\"{{a}}\">{{a}}</block></c>",
+              "<c><template is=\"t\" slot:a data=\"{{a}}\"/></c>", "<c><include src=\"x\" slot:a/></c>", "<c><v slot:a=\"b\" x=\"{{b}}\"><slot slot:b=\"c\" y=\"{{c}}{{b}}\"/></v></c>",
+              "<c><slot slot:a wx:for=\"{{a}}\" name=\"{{item}}\">{{a}}</slot></c>", "<template name=\"t\"><slot slot:a x=\"{{a}}\"/></template>",
+              "<c><import src=\"x\" slot:a/><wxs module=\"m\" slot:a/></c>"] {
         v.push(("tmpl".into(), s.to_string()));
     }
     let ws = ['\u{9}', '\u{a}', '\u{b}', '\u{c}', '\u{d}', ' ', '\u{85}', '\u{a0}', '\u{1680}', '\u{2000}', '\u{2001}', '\u{2002}', '\u{2003}', '\u{2004}', '\u{2005}',
@@ -287,6 +297,9 @@ pub fn inputs(tier: &str, seed: u64) -> Vec<(String, String)> {
             }
         }
         v.push(("css".into(), mutate_text(&mut rng, base)));
+    }
+    for s in [".a{width:75rpx;height:7.5rpx;margin:-750rpx 0rpx 1rpx 2147483647rpx}", "@media (min-width:10rpx){.a{b:calc(1rpx*2)}}", ".a{b:1e38rpx;c:1e-38rpx;d:-0rpx}"] {
+        v.push(("css".into(), s.to_string()));
     }
     for s in ["{", "}", "}}}{{{", "\"", "'\n", "url(", "url( a b )", "/*", "@", "@import", "@import ;", "@media {", ".a{b:c", ".a{b:\"", "\\", "a\\\n", "<!-- -->", "U+?", "1e999rpx", "-.e5rpx", "@charset \"x\";", ":host", ":host{", "@import url();"] {
         v.push(("css".into(), s.to_string()));
